@@ -63,7 +63,7 @@ def run(ctx):
              "primitive (e.g. a - b as a + (-b)) is rejected because the intermediate can "
              "overflow when the exact result fits")
     ctx.rule("C08.c", "every FloatToInt cast, and every int cast into i16 from a wider type, in "
-             "mach::* is dominated by a lower and an upper range test of the same source value "
+             "the crate is dominated by a lower and an upper range test of the same source value "
              "against the target type's bounds, and the function can construct OVERFLOW")
     ctx.rule("C08.e", "a floating point value is range-tested and converted at its own precision: "
              "the source of every float->integer cast has no narrowing float conversion in its "
@@ -86,9 +86,12 @@ def run(ctx):
         n_b += rule_b(ctx, f)
     ctx.floor("C08.b", "checked_* call sites", n_b, 6)
     n_c = 0
-    for f in fns:
-        if f.path.startswith("lang::") or f.path.startswith("<lang::"):
-            continue  # lang::line's cast is C14.c's
+    lang_fns = [] if ctx.tier == "thorough" else sorted(
+        (g for p, g in ctx.lib.fns.items() if p.startswith("lang::") or p.startswith("<lang::")),
+        key=lambda g: g.path)
+    for f in list(fns) + lang_fns:
+        if f.path == "lang::line::RenumVisitor<'a>::line":
+            continue  # its f64 -> u16 cast has its own bounds (0..=65529): C14.c
         n_c += rule_c(ctx, f)
     ctx.floor("C08.c", "range-guarded casts", n_c, 9)
     rule_d(ctx)
